@@ -15,7 +15,7 @@ def plans(tier):
 def enum_plans(tier):
     th = tier == "thorough"
     # every history over {tick, connect result ok/fail, CEA, DPR, remote close}: reconnect timing at every offset
-    return [dict(cfg="B", depth=7 if th else 6, maxtime=7 if th else 6, alpha=["ceaok", "dpr"], faults=True, maxconn=3),
-            dict(cfg="D", depth=7 if th else 6, maxtime=7 if th else 6, alpha=["ceaok", "dpr"], faults=True, maxconn=3),
+    return [dict(cfg="B", depth=7 if th else 5, maxtime=7 if th else 5, alpha=["ceaok", "dpr"], faults=True, maxconn=3),
+            dict(cfg="D", depth=7 if th else 5, maxtime=7 if th else 5, alpha=["ceaok", "dpr"], faults=True, maxconn=3),
             # a DPR while a watchdog request is outstanding, and a late DWA after the DPA
             dict(cfg="B", depth=8 if th else 7, maxtime=5 if th else 4, alpha=["ceaok", "dpr", "dwa"], faults=False, maxconn=1)]
